@@ -47,7 +47,7 @@ func main() {
 
 func cases(tier string) int {
 	if tier == "thorough" {
-		return 4000
+		return 12000
 	}
 	return 1500
 }
